@@ -140,12 +140,17 @@ type Chain struct {
 	Links []string `json:"links"`
 }
 
+// SecondSourceBase is added to the chain id to form the id of its second source.
+const SecondSourceBase = 50000
+
 // Key is the canonical signature string of a link sequence.
 func Key(links []string) string { return strings.Join(links, ">") }
 
 // Batch is a generated program made of chains.
 type Batch struct {
 	Chains []Chain
+	// SecondSource adds, to every chain, a second source whose data reaches the same sink call.
+	SecondSource bool
 	// Prologue/Epilogue kinds can vary the source / sink forms.
 }
 
@@ -189,7 +194,13 @@ func (b *Batch) Files() map[string]string {
 				body.WriteString("\t" + bl + "\n")
 			}
 		}
-		fmt.Fprintf(&body, "\trt.Sink(%d, x%d)\n", ch.ID, len(ch.Links))
+		if b.SecondSource {
+			// a second, independent source reaches the same sink call (exercises the merging of results)
+			fmt.Fprintf(&body, "\ty%d := string(rt.SourceB(%d))\n", ch.ID, SecondSourceBase+ch.ID)
+			fmt.Fprintf(&body, "\trt.Sink(%d, x%d+y%d)\n", ch.ID, len(ch.Links), ch.ID)
+		} else {
+			fmt.Fprintf(&body, "\trt.Sink(%d, x%d)\n", ch.ID, len(ch.Links))
+		}
 		body.WriteString("}\n\n")
 	}
 	var main strings.Builder
